@@ -1,4 +1,4 @@
-import Mdsort.Proofs.LimitsSim
+import Mdsort.Proofs.LimitsEvalP
 
 /-!
 # The functions of maildir.c / message.c / match.c under two sets of limits
@@ -254,18 +254,14 @@ theorem processMessageL_sim (hle : L ≤ L') (hs : Sane L) (env : PEnv) (orc : E
         | none => exact Sim.refl _
         | some ms =>
           simp only
-          rcases evalL_mono hle hs
-              { rx := orc.rx, command := fun _ => -1, isDir := fun _ => false, now := env.now, strptime := orc.strptime,
-                zoneName := orc.zoneName, fileTime := fun _ => none, dryrun := env.dryrun, path := ms.path }
-              ms.msg expr 0 ms.msg { ml := [], flags := ms.flags } with h | h
-          · rw [h]
-            split
-            · exact Sim.refl _
-            · exact Sim.refl _
-            · rename_i est _
+          apply Sim.bindE (evalPL_sim hle hs _ expr ms.msg ms.flags)
+          · rintro ⟨t, est⟩
+            cases t
+            · simp only
               rcases matchesInterpolateL_mono hle
                   { rx := orc.rx, command := fun _ => -1, isDir := fun _ => false, now := env.now, strptime := orc.strptime,
-                    zoneName := orc.zoneName, fileTime := fun _ => none, dryrun := env.dryrun, path := ms.path }
+                    zoneName := orc.zoneName, fileTime := fun _ => none, timeFormat := orc.timeFormat, dryrun := env.dryrun,
+                    path := ms.path }
                   est.ml (partMsg ms.msg ms.parts) with h2 | h2
               · rw [h2]
                 exact Sim.stop _ _ (relErr_freeMsg _ (RelErr.ret rfl))
@@ -278,14 +274,11 @@ theorem processMessageL_sim (hle : L ≤ L') (hs : Sane L) (env : PEnv) (orc : E
                     · intro x; exact Sim.refl _
                     · intro x hx
                       exact relErr_freeMsg _ (RelErr.ret (by simp [hx]))
-          · apply Sim.stop
-            rcases hx : evalL L
-              { rx := orc.rx, command := fun _ => -1, isDir := fun _ => false, now := env.now, strptime := orc.strptime,
-                zoneName := orc.zoneName, fileTime := fun _ => none, dryrun := env.dryrun, path := ms.path }
-              ms.msg expr 0 ms.msg { ml := [], flags := ms.flags } with ⟨t, s1⟩
-            rw [hx] at h
-            simp only at h
-            subst h
+            · exact Sim.refl _
+            · exact Sim.refl _
+          · rintro ⟨t, est⟩ ht
+            simp only at ht
+            subst ht
             exact relErr_freeMsg _ (RelErr.ret rfl)
       · intro pm hpm
         subst hpm
